@@ -20,7 +20,7 @@ pub fn spec() -> Spec {
         rule: "one case per (presentation, subgroup generating set): family 'named' = finite groups with independently known order x every set of <= 2 words of length <= L; family 'exhaustive' = every presentation on 2 generators with <= 3 relators among the rotation/inversion classes of cyclically reduced words of length <= 4 on which the reference Todd-Coxeter (HLT, row cap 300) terminates, x every set of <= 2 words of length <= 2; family 'spherical' = fundamental groups (crate presentation) of all spherical DSyms outputs over DSets(2, <= N) x trivial and one-word subgroups. Oracle: index by the reference Todd-Coxeter (= |G|/|H| where known), columns are mutually inverse permutations, transitive, every relator closes at every row, subgroup generators close at row 0, representatives trace to their rows. Non-trivial = index >= 2 and a non-empty generating set.",
         assumptions: &["family 'spherical' takes its presentations from fundamental_group (C09); any presentation is a valid input for this property, so this is a supply, not a trusted oracle"],
         bounds: |t| json!({"named_word_len": 3, "named_max_words": 2,
-            "exhaustive_2gens": {"relator_len": t.pick(5, 6), "max_relators": 3, "sub_word_len": 2, "max_words": 2},
+            "named_groups_subgroup_word_len": {"2 generators": t.pick(5, 6), "3+ generators": t.pick(3, 4)}, "exhaustive_2gens": {"relator_len": t.pick(5, 6), "max_relators": 3, "sub_word_len": 2, "max_words": 2},
             "exhaustive_3gens": {"relator_len": 3, "max_relators": t.pick(4, 5), "sub_word_len": 2, "max_words": 1}, "ref_row_cap": 300,
             "spherical_dsets_max_size": t.pick(7, 8)}),
     }
@@ -186,7 +186,9 @@ fn run(ctx: &mut Ctx) {
     validate_todd_coxeter();
     // family named
     for g in finite_groups() {
-        let l = 3;
+        // subgroup generators up to length 5 [6] over 2 generators, 3 [4] over more: long generators make
+        // coincidences pile up on rows that are already complete (cascades that short words never produce)
+        let l = if g.ng <= 2 { tier.pick(5, 6) } else { tier.pick(3, 4) };
         let ws = reduced_words(g.ng, l);
         for subs in word_sets(&ws, 2) {
             if ctx.take() {
